@@ -176,6 +176,8 @@ pub struct World {
     pub drop_all: bool,
     /// read at most this many events of each Server::step() and drop the iterator
     pub server_event_limit: Option<usize>,
+    /// forget datagrams that have arrived for addresses nobody reads (raw peers) after every server step
+    pub auto_discard: bool,
 }
 
 pub fn server_addr() -> SocketAddr {
@@ -234,6 +236,7 @@ impl World {
             raw_latency_us: 0,
             drop_all: false,
             server_event_limit: None,
+            auto_discard: false,
         }
     }
 
@@ -412,6 +415,9 @@ impl World {
             self.server_events.push((s, self.now_us, e.clone()));
         }
         self.route();
+        if self.auto_discard {
+            self.discard_undeliverable();
+        }
         out
     }
 
